@@ -149,6 +149,7 @@ func checkC12(c *ev.Ctx) {
 			single := variant&1 == 1
 			eofWithData := variant&2 == 2
 			id := fmt.Sprintf("%s-s%v-e%v", f.id, single, eofWithData)
+			noteCase(id)
 			if !want(c, id) {
 				continue
 			}
@@ -285,6 +286,7 @@ func c12Hetero(c *ev.Ctx) {
 		}
 		for _, dc := range []int{0, 4096} {
 			id := fmt.Sprintf("H%d-dc%d", i, dc)
+			noteCase(id)
 			if !want(c, id) {
 				continue
 			}
